@@ -775,6 +775,253 @@ O_FAMILIES = {"ORs": o_family_rs, "OMs": o_family_ms, "ODu": o_family_du}
 
 
 # =================================================================================================
+# Part U: fix_unconventional_class_definitions
+# =================================================================================================
+# vexpr: ("c", k) | ("n", x) | ("a", a) | ("g", k, vexpr);   program: dict(globals, hook, body, post, rest)
+def u_nm(x):
+    return f"n{x}" if x < 40 else f"__q{x}"
+
+
+def u_nm_inv(s):
+    m = re.fullmatch(r"n(\d+)|__q(\d+)", s)
+    if not m:
+        raise Unsupported("name " + s)
+    return int(m.group(1) or m.group(2))
+
+
+def u_expr(e):
+    k = e[0]
+    if k == "c":
+        return str(e[1])
+    if k == "n":
+        return u_nm(e[1])
+    if k == "a":
+        return f"C1.{u_nm(e[1])}"
+    return f"g({e[1]}, {u_expr(e[2])})"
+
+
+U_DECO = "def deco(c):\n    h([k for k in vars(c) if k[:2] != '__'])\n    return c\n"
+
+
+def u_src(p) -> str:
+    out = [f"{u_nm(x)} = {k}\n" for x, k in p["globals"]]
+    if p["hook"]:
+        out.append(U_DECO + "@deco\n")
+    out.append("class C1:\n")
+    out += [f"    {u_nm(a)} = {u_expr(e)}\n" for a, e in p["body"]] or ["    pass\n"]
+    out += [f"C1.{u_nm(a)} = {u_expr(e)}\n" for a, e in p["post"]]
+    out += [f"r({u_expr(e)})\n" for e in p["rest"]]
+    return "".join(out)
+
+
+def _u_parse_expr(n):
+    if isinstance(n, ast.Constant) and type(n.value) is int:
+        return ("c", n.value)
+    if isinstance(n, ast.Name):
+        return ("n", u_nm_inv(n.id))
+    if isinstance(n, ast.Attribute) and isinstance(n.value, ast.Name) and n.value.id == "C1":
+        return ("a", u_nm_inv(n.attr))
+    if isinstance(n, ast.Call) and isinstance(n.func, ast.Name) and n.func.id == "g" and len(n.args) == 2:
+        return ("g", n.args[0].value, _u_parse_expr(n.args[1]))
+    raise Unsupported("expression " + ast.dump(n)[:100])
+
+
+def u_parse(src):
+    """(body, post) of the class C1 in the text"""
+    body, post = [], []
+    for n in ast.parse(src).body:
+        if isinstance(n, ast.ClassDef) and n.name == "C1":
+            for x in n.body:
+                if isinstance(x, ast.Pass):
+                    continue
+                if not (isinstance(x, ast.Assign) and len(x.targets) == 1 and isinstance(x.targets[0], ast.Name)):
+                    raise Unsupported("class body")
+                body.append((u_nm_inv(x.targets[0].id), _u_parse_expr(x.value)))
+        elif isinstance(n, ast.Assign) and isinstance(n.targets[0], ast.Attribute):
+            t = n.targets[0]
+            if not (isinstance(t.value, ast.Name) and t.value.id == "C1"):
+                raise Unsupported("target")
+            post.append((u_nm_inv(t.attr), _u_parse_expr(n.value)))
+    return body, post
+
+
+def g_vexpr(e):
+    k = e[0]
+    return {"c": f"(VConst {e[1]})", "n": f"(VName {e[1]})", "a": f"(VAttr {e[1]})"}.get(k) or f"(VCall {e[1]} {g_vexpr(e[2])})"
+
+
+def g_binds(b):
+    return glist(b, lambda p: f"({p[0]}, {g_vexpr(p[1])})")
+
+
+def g_uprog(p):
+    gl = glist(p["globals"], lambda q: f"({q[0]}, UInt {q[1]})")
+    return f"(mkU {gl} {'true' if p['hook'] else 'false'} {g_binds(p['body'])} {g_binds(p['post'])} {glist(p['rest'], g_vexpr)})"
+
+
+def _g_uval(v):
+    if isinstance(v, tuple) and v and v[0] == "R":
+        return f"(URes {v[1]} {_g_uval(v[2])})"
+    if isinstance(v, tuple) and v and v[0] == "H":
+        return f"(UHook {glist(v[1])})"
+    if type(v) is int:
+        return f"(UInt {v})"
+    raise Unsupported("value " + repr(v))
+
+
+def u_run(src):
+    """(ok, log, final attributes of C1) as Gallina text; log entries and attributes as the model has them"""
+    log = []
+
+    def g(k, v):
+        r = ("R", k, v)
+        log.append(r)
+        return r
+
+    def h(names):
+        log.append(("H", [u_nm_inv(n) for n in names if re.fullmatch(r"n\d+|__q\d+", n)]))
+
+    def r(v):
+        log.append(v)
+    env = {"g": g, "h": h, "r": r, "__name__": "u"}
+    try:
+        exec(compile(src, "<u>", "exec"), env)
+        ok = True
+    except (NameError, AttributeError):
+        ok = False
+    attrs = []
+    if ok:
+        attrs = [(u_nm_inv(k), v) for k, v in vars(env["C1"]).items() if re.fullmatch(r"n\d+|__q\d+", k)]
+    return ok, log, attrs
+
+
+def u_family(tier):
+    C = lambda k: ("c", k)  # noqa
+    bodies = [[], [(1, C(1))], [(1, C(1)), (2, ("g", 3, ("n", 0)))]]
+    atoms = [(2, C(2)), (3, ("n", 0)), (3, ("n", 1)), (4, ("a", 1)), (4, ("g", 5, ("n", 0))), (1, C(7)), (41, C(3)),
+             (5, ("n", 2)), (5, ("g", 6, ("a", 2)))]
+    posts = [[a] for a in atoms] + [[a, b] for a in atoms for b in atoms] + [[atoms[0], atoms[7], atoms[1]], [atoms[1], atoms[0], atoms[3]]]
+    out = []
+    for body, post, g1, hook in itertools.product(bodies, posts, [False, True], [False, True]):
+        if tier == "quick" and hook and g1:
+            continue
+        rest = [("a", a) for a in sorted({a for a, _ in post} | {a for a, _ in body}) if a < 40][:3]
+        out.append({"globals": [(0, 7)] + ([(1, 9), (2, 8)] if g1 else []), "hook": hook, "body": body, "post": post, "rest": rest})
+    return out
+
+
+def u_apply(mods, p):
+    src = u_src(p)
+    mods["core"].parse.cache_clear()
+    try:
+        with common.quiet():
+            out = mods["object_oriented"].fix_unconventional_class_definitions(src)
+    except Exception as e:  # noqa
+        return src, "", ("raised", f"{type(e).__name__}: {e}")
+    try:
+        q = u_parse(out)
+    except (Unsupported, SyntaxError) as e:
+        return src, out, ("outside-fragment", str(e)[:200])
+    return src, out, q
+
+
+# =================================================================================================
+# Part D: remove_duplicate_functions / hash_node
+# =================================================================================================
+class _Intern:
+    def __init__(self):
+        self.t = {}
+
+    def __call__(self, key):
+        return self.t.setdefault(key, len(self.t))
+
+
+def d_tokens(fn: ast.FunctionDef, ids: _Intern, names: _Intern):
+    """the things hash_node hashes, in its order: ('k', id) | ('n', name id, binds)"""
+    out = []
+    declared = {n for g in ast.walk(fn) if isinstance(g, (ast.Global, ast.Nonlocal)) for n in g.names}
+    for child in ast.walk(fn):
+        out.append(("k", ids(("type", type(child).__name__))))
+        nm = None
+        if isinstance(child, ast.Name):
+            nm = (child.id, isinstance(child.ctx, (ast.Store, ast.Del)) and child.id not in declared)
+        elif isinstance(child, ast.arg):
+            nm = (child.arg, True)
+        elif isinstance(child, (ast.FunctionDef, ast.AsyncFunctionDef)):
+            nm = (child.name, True)
+        else:
+            for key, value in child.__dict__.items():
+                if isinstance(value, (str, int, float, complex, bytes, type(None), type(...))) \
+                        and key not in {"lineno", "end_lineno", "col_offset", "end_col_offset"}:
+                    out.append(("k", ids((key, type(value).__name__, repr(value)))))
+        for key, value in child.__dict__.items():
+            if isinstance(value, list):
+                out.append(("k", ids((key, len(value)))))
+            elif isinstance(value, ast.AST):
+                out.append(("k", ids((key,))))
+        if nm:
+            out.append(("n", names(nm[0]), nm[1]))
+    return out
+
+
+def g_toks(ts):
+    return glist(ts, lambda t: f"(TK {t[1]})" if t[0] == "k" else f"(TN {t[1]} {'true' if t[2] else 'false'})")
+
+
+# (parameters, body, arguments of the call)
+D_BODIES = [
+    ("{a}", "return {a} + 1", "O()"), ("{a}", "return {a} - 1", "O()"), ("{a}", "return len({a})", "O()"),
+    ("{a}", "return sum({a})", "O()"), ("{a}", "return h1({a})", "1"), ("{a}", "return h2({a})", "1"),
+    ("{a}, {b}", "return {a} - {b}", "O(), 1"), ("{a}, {b}", "return {b} - {a}", "O(), 1"),
+    ("{a}", "{t} = {a} + 1\n    return {t}", "O()"), ("{a}", "{t} = {a} + 1\n    return {a}", "O()"),
+    ("{a}", "return 1.5", "1"), ("{a}", "return 2.5", "1"), ("{a}", "return None", "1"),
+    ("{a}", "return [{a}, 1]", "1"), ("{a}", "return ({a}, 1)", "1"), ("*{a}", "return {a}", "1, 2"),
+    ("{a}, *, {b}", "return {a}", "1, {b}=2"), ("{a}, {b}", "return {a}", "1, 2"), ("{a}", "return {a}.x1", "O()"),
+    ("{a}", "return {a}.x2", "O()"), ("{a}", "global G1\n    G1 = {a}\n    return G1", "1"),
+    ("{a}", "global G2\n    G2 = {a}\n    return G2", "1"), ("{a}", "return [{t} for {t} in {a}]", "O()"),
+    ("{a}", "return {SELF}({a}) if {a} else 5", "0"), ("{a}", "return (lambda {t}: {t} + {a})(2)", "1"),
+    ("{a}", "return True", "1"), ("{a}", "return 1", "1"),
+]
+D_PRELUDE = ("def h1(x):\n    return ('h1', x)\ndef h2(x):\n    return ('h2', x)\nG1 = G2 = 0\n"
+             "class O:\n    x1 = 'x1'\n    x2 = 'x2'\n    def __len__(self):\n        return 3\n    def __iter__(self):\n        return iter([1, 2])\n"
+             "    def __add__(self, o):\n        return 'add'\n    def __sub__(self, o):\n        return 'sub'\n    def __rsub__(self, o):\n        return 'rsub'\n")
+
+
+def d_module(i, j, names_f, names_g):
+    pf, bf, cf = D_BODIES[i]
+    pg, bg, cg = D_BODIES[j]
+    f = f"def f1({pf.format(**names_f)}):\n    {bf.format(SELF='f1', **names_f)}\n"
+    g = f"def f2({pg.format(**names_g)}):\n    {bg.format(SELF='f2', **names_g)}\n"
+    return f + g + f"print(f1({cf.format(**names_f)}), f2({cg.format(**names_g)}), G1, G2)\n"
+
+
+def d_family(tier):
+    """pairs of function bodies; the second function uses other bound names than the first"""
+    A = {"a": "p", "b": "q", "t": "t"}
+    B = {"a": "u", "b": "v", "t": "w"}
+    n = len(D_BODIES)
+    out = []
+    for i in range(n):
+        for j in range(n):
+            if tier == "quick" and i != j and abs(i - j) != 1 and (i + 2 * j) % 3:
+                continue
+            out.append((i, j, A, B))
+            if i == j:
+                out.append((i, j, A, A))
+    return out
+
+
+def run_text(src: str) -> str:
+    out = io.StringIO()
+    try:
+        with contextlib.redirect_stdout(out):
+            exec(compile(src, "<d>", "exec"), {"__name__": "d"})
+    except Exception as e:  # noqa
+        return out.getvalue() + f"<raised {type(e).__name__}>"
+    return re.sub(r"0x[0-9a-f]+", "0x", out.getvalue())
+
+
+# =================================================================================================
 # known findings: site + structural predicate on a failing oracle case
 # =================================================================================================
 def _o_has_dyn(case):
@@ -783,7 +1030,68 @@ def _o_has_dyn(case):
 
 SIGS = {
     "dynamic_name_access": ("*", _o_has_dyn),          # F02-28 (main tranche): reported here as a note only
+    "class_creation_observer": ("object_oriented.fix_unconventional_class_definitions", lambda c: "@deco" in c["source"]),
+    # F02-34 (main tranche): keyword argument with the parameter name of the removed duplicate
+    "duplicate_function_parameter_names": ("fixes.remove_duplicate_functions", lambda c: re.search(r"\b[a-z]=2\)", c["source"]) is not None),
 }
+
+# witness programs of findings whose shape is outside the generated families: (finding id, site, keyword arguments, program)
+WITNESSES = [
+    ("F02cls-2", "fixes.remove_duplicate_functions", {"preserve": P0},
+     "def f(x):\n    return x + 1\ndef g(y):\n    return y + 1\nprint(f is g, g.__name__, f(1), g(1))\n"),
+    ("F02cls-3", "object_oriented.move_staticmethod_static_scope", {"preserve": P0},
+     "class C:\n    @staticmethod\n    def m():\n        return 1\ndef h(C):\n    return C.m()\nclass E:\n    def m(self):\n        return 2\nprint(h(E()), C.m())\n"),
+]
+# programs that were failing inputs before a repair: they must pass from now on
+REGRESSIONS = [
+    ("fixes.undefine_unused_variables", {"preserve": P0}, "i = 0\nwhile True:\n    i = i + 1\n    if i > 2:\n        break\nprint('end', i)\n"),
+    ("fixes.undefine_unused_variables", {"preserve": P0}, "x = 1\ntry:\n    x = 2\n    raise ValueError\nexcept ValueError:\n    print(x)\n"),
+    ("fixes.undefine_unused_variables", {"preserve": P0}, "def c():\n    return True\nv = 0\nwhile c():\n    v = 1\n    if c():\n        break\n    v = 2\nprint(v)\n"),
+    ("object_oriented.remove_unused_self_cls", {}, "class A:\n    def __get__(self, inst, owner):\n        return 7\n    def __copy__(self):\n        return 9\nclass H:\n    d = A()\nimport copy\nprint(H().d, copy.copy(A()))\n"),
+    ("object_oriented.remove_unused_self_cls", {}, "class A:\n    def m(self):\n        return 1\n    def _get(self):\n        return 2\n    x = property(_get)\nclass B(A):\n    def m(self):\n        return A.m(self) + 1\nprint(B().m(), A().x)\n"),
+    ("object_oriented.remove_unused_self_cls", {}, "class C:\n    def m(self):\n        print(1)\nclass D(C):\n    @classmethod\n    def k(cls):\n        super().m(0)\nD.k()\n"),
+    ("object_oriented.remove_unused_self_cls", {}, "class A:\n    def m(self):\n        print('A.m')\n    def t(self):\n        self.m()\nclass B(A):\n    def m(self):\n        print('B.m', type(self).__name__)\nB().t()\n"),
+    ("object_oriented.move_staticmethod_static_scope", {"preserve": P0}, "class C:\n    @staticmethod\n    def m():\n        return 1\nclass D(C):\n    def k(self):\n        return self.m()\ndef make():\n    return C()\nxs = [C()]\nprint(D().m(), D().k(), make().m(), xs[0].m())\n"),
+    ("object_oriented.move_staticmethod_static_scope", {"preserve": P0}, "class C:\n    @staticmethod\n    def m():\n        return 1\n    @staticmethod\n    def __p():\n        return 2\n    def k(self):\n        return self.m() + self.__p()\n_m = 5\nprint(C().k())\n"),
+    ("object_oriented.move_staticmethod_static_scope", {"preserve": P0}, "class A:\n    def n(self):\n        return 'A.n'\nclass B:\n    @staticmethod\n    def n():\n        return 'B.n'\n    t = {'k': n}\nprint(A().n(), B.n())\n"),
+    ("object_oriented.move_staticmethod_static_scope", {"preserve": P0}, "class C:\n    def __init__(self):\n        print('init')\n    @staticmethod\n    def m():\n        return 1\nprint(C().m())\n"),
+    ("object_oriented.fix_unconventional_class_definitions", {}, "a = 5\nclass C:\n    a = 1\nC.b = a\nC.x = C()\nC.__y = 2\nprint(C.b, type(C.x).__name__, '__y' in vars(C))\n"),
+    ("fixes.remove_duplicate_functions", {"preserve": P0}, "def f(x):\n    return len(x)\ndef g(x):\n    return sum(x)\ndef h(x):\n    return 1.5\ndef k(x):\n    return 2.5\ndef a(x, *, y):\n    return x\ndef b(x, y):\n    return x\nprint(f([5]), g([5]), h(0), k(0), a(1, y=2), b(1, 2))\n"),
+    ("fixes.delete_unused_functions_and_classes", {"preserve": frozenset({"A"})}, "class A:\n    def __init__(self):\n        self.v = 1\n    def __repr__(self):\n        return 'R'\n    def unused(self):\n        return 1\n"),
+]
+
+
+def check_programs(run, mods, kf):
+    """witnesses of findings (still failing -> KNOWN-FINDING) and repaired inputs (must pass)"""
+    n = 0
+    fails = []
+    for fid, site, kw, src in WITNESSES:
+        m, f = site.split(".")
+        mods["core"].parse.cache_clear()
+        with common.quiet():
+            new = getattr(mods[m], f)(src, **kw)
+        before, after = run_text(src), run_text(new)
+        n += 1
+        listed = [x for x in kf if x.kind == "finding" and x.id == fid and x.fields.get("site") == site]
+        if before != after:
+            if listed:
+                run.known_finding(fid, f"{listed[0].text} [witness prints {before!r} before, {after!r} after]")
+            else:
+                fails.append((site, {"source": src, "output": new, "problem": f"stdout {before!r} vs {after!r} (witness program)"}))
+        elif listed:
+            common.log(f"note: known finding {fid} no longer reproduces")
+    for site, kw, src in REGRESSIONS:
+        m, f = site.split(".")
+        mods["core"].parse.cache_clear()
+        with common.quiet():
+            new = getattr(mods[m], f)(src, **kw)
+        before, after = run_text(src), run_text(new)
+        n += 1
+        if before != after:
+            fails.append((site, {"source": src, "output": new, "problem": f"stdout {before!r} vs {after!r} (input of a repaired defect)"}))
+        if f == "delete_unused_functions_and_classes" and ("__init__" not in new or "__repr__" not in new or "unused" in new):
+            fails.append((site, {"source": src, "output": new, "problem": "magic methods of a preserved class deleted (adbf84a)"}))
+    return n, fails
 
 
 def match_finding(kf, site, case):
@@ -935,11 +1243,90 @@ def check(run, mods, wd, rnd) -> dict:
     files_o = _write_cases(wd, "orule", o_cases, lambda c: f"({c[0]}, {g_mod(c[1])}, {g_mod(c[2])})", "orule * module * module", "o_case_ok", 300)
     files_os = _write_cases(wd, "osem", o_sem, lambda c: f"({g_mod(c[0])}, {glist(c[1])}, {c[2]})", "module * list tev * outc", "o_sem_case_ok", 300)
 
+    # ------------------------------------------------------------------ Part U
+    u_cases, u_sem, u_fired = [], [], {}
+    site_u = "object_oriented.fix_unconventional_class_definitions"
+    ufam = u_family(tier)
+    for p in ufam:
+        src, out, q = u_apply(mods, p)
+        if isinstance(q[0], str):
+            o_problems.append({"rule": site_u, "source": src, "output": out, "problem": list(q)})
+            continue
+        u_cases.append((p, q[0], q[1], src, out))
+        hist[f"U:{'fired' if out != src else 'silent'}"] += 1
+        if out != src:
+            u_fired[src] = (p, out)
+        if out != src or len(u_sem) % 4 == 0:
+            try:
+                ok, log, attrs = u_run(src)
+                u_sem.append((p, ok, glist(log, _g_uval), glist(attrs if ok else [], lambda a: f"({a[0]}, {_g_uval(a[1])})"), src))
+            except Unsupported:
+                hist["U:sem-unsupported"] += 1
+    for src, (p, out) in u_fired.items():
+        n_oracle += 1
+        b = run_text(src + "print(sorted((k, repr(v)) for k, v in vars(C1).items() if k[:2] != '__' or k[:3] == '__q'))\n")
+        if "<raised" in b:
+            continue
+        a = run_text(out + "print(sorted((k, repr(v)) for k, v in vars(C1).items() if k[:2] != '__' or k[:3] == '__q'))\n")
+        if a != b:
+            case = {"source": src, "output": out, "before": b, "after": a, "problem": f"{b!r} before, {a!r} after"}
+            f = match_finding(kf, site_u, case)
+            if f is None:
+                failures.append((site_u, case))
+            else:
+                reproduced.setdefault(f.id, (f, []))[1].append(case)
+    files_u = _write_cases(wd, "urule", u_cases, lambda c: f"({g_uprog(c[0])}, {g_binds(c[1])}, {g_binds(c[2])})",
+                           "uprog * list (name * vexpr) * list (name * vexpr)", "u_case_ok")
+    files_us = _write_cases(wd, "usem", u_sem, lambda c: f"({g_uprog(c[0])}, {'true' if c[1] else 'false'}, {c[2]}, {c[3]})",
+                            "uprog * bool * list uval * ns", "u_sem_case_ok")
+    timings["U_s"] = round(time.time() - t0, 1)
+
+    # ------------------------------------------------------------------ Part D
+    d_cases, d_fired = [], 0
+    site_d = "fixes.remove_duplicate_functions"
+    for (i, j, nf, ng) in d_family(tier):
+        src = d_module(i, j, nf, ng)
+        tree = ast.parse(src)
+        ids, names = _Intern(), _Intern()
+        tf, tg = d_tokens(tree.body[0], ids, names), d_tokens(tree.body[1], ids, names)
+        mods["core"].parse.cache_clear()
+        try:
+            with common.quiet():
+                out = mods["fixes"].remove_duplicate_functions(src, preserve=P0)
+        except Exception as e:  # noqa
+            o_problems.append({"rule": site_d, "source": src, "problem": ["raised", f"{type(e).__name__}: {e}"]})
+            continue
+        merged = "def f2" not in out
+        d_cases.append((tf, tg, merged, src, out))
+        hist[f"D:{'merged' if merged else 'kept'}"] += 1
+        if out != src:
+            d_fired += 1
+            n_oracle += 1
+            b = run_text(D_PRELUDE + src)
+            if "<raised" in b:
+                continue
+            a = run_text(D_PRELUDE + out)
+            if a != b:
+                case = {"source": src, "output": out, "before": b, "after": a, "problem": f"{b!r} before, {a!r} after"}
+                f = match_finding(kf, site_d, case)
+                if f is None:
+                    failures.append((site_d, case))
+                else:
+                    reproduced.setdefault(f.id, (f, []))[1].append(case)
+    files_d = _write_cases(wd, "dup", d_cases, lambda c: f"({g_toks(c[0])}, {g_toks(c[1])}, {'true' if c[2] else 'false'})",
+                           "list tok * list tok * bool", "d_case_ok")
+    n_prog, prog_fails = check_programs(run, mods, kf)
+    failures += prog_fails
+    timings["D_s"] = round(time.time() - t0, 1)
+
     # ------------------------------------------------------------------ evaluate the models
     bad_l, e1 = _eval_files(files_l)
     bad_ll, e2 = _eval_files(files_ll)
     bad_o, e3 = _eval_files(files_o)
     bad_os, e4 = _eval_files(files_os)
+    bad_u, e5 = _eval_files(files_u)
+    bad_us, e6 = _eval_files(files_us)
+    bad_d, e7 = _eval_files(files_d)
     timings["coq_s"] = round(time.time() - t0, 1)
     for c in bad_l:
         disagreements.append({"kind": "liveness-check", "rule": "fixes.undefine_unused_variables", "source": c[2], "output": c[3],
@@ -955,7 +1342,16 @@ def check(run, mods, wd, rnd) -> dict:
     for c in bad_os:
         disagreements.append({"kind": "semantics", "source": c[3], "cpython": [c[1], c[2]], "term": g_mod(c[0]), "kernel": "RulesClsModel.run",
                               "explanation": "CPython and the object semantics disagree on a printed module"})
-    for e in e1 + e2 + e3 + e4:
+    for c in bad_u:
+        disagreements.append({"kind": "rule-model", "rule": site_u, "source": c[3], "output": c[4], "kernel": "RulesClsModel.fu_model",
+                              "explanation": "the real rule and its Gallina model disagree on which assignments move"})
+    for c in bad_us:
+        disagreements.append({"kind": "semantics", "source": c[4], "cpython": [c[1], c[2], c[3]], "kernel": "RulesClsModel.urun",
+                              "explanation": "CPython and the class-body semantics disagree on a printed program"})
+    for c in bad_d:
+        disagreements.append({"kind": "rule-model", "rule": site_d, "source": c[3], "output": c[4], "kernel": "RulesClsModel.dup_eqb",
+                              "explanation": "the real rule merges / keeps two functions, the numbering model says the opposite"})
+    for e in e1 + e2 + e3 + e4 + e5 + e6 + e7:
         disagreements.append({"kind": "model-evaluation-failed", **e})
     for c in (l_problems + o_problems):
         disagreements.append({"kind": "rule-output-outside-fragment", **c})
@@ -968,6 +1364,11 @@ def check(run, mods, wd, rnd) -> dict:
                 x = l_oracle(d["source"], d["output"], d.get("mode", 0), 5)
                 if x:
                     searched.append(("fixes.undefine_unused_variables", {**d, **x, "problem": "found by the failing-input search"}))
+            elif d.get("kind") == "rule-model" and d.get("output") and d.get("rule") in (site_u, site_d):
+                pre = D_PRELUDE if d["rule"] == site_d else ""
+                b, a = run_text(pre + d["source"]), run_text(pre + d["output"])
+                if "<raised" not in b and a != b:
+                    searched.append((d["rule"], {**d, "before": b, "after": a, "problem": "found by the failing-input search"}))
             elif d.get("kind") == "rule-model" and d.get("output"):
                 b = o_run(d["source"])
                 a = o_run(d["output"])
@@ -992,10 +1393,10 @@ def check(run, mods, wd, rnd) -> dict:
     elif disagreements:
         run.notes.append(f"cls tranche: {len(disagreements)} correspondence disagreements alongside the oracle failures")
 
-    n_fired = len(l_fired) + len(o_fired)
+    n_fired = len(l_fired) + len(o_fired) + len(u_fired) + d_fired
     samples = [s for s in list(l_fired)[:2]] + [k[1] for k in list(o_fired)[:: max(1, len(o_fired) // 4)]][:4]
     return {
-        "evaluations": len(l_cases) + len(l_line) + len(o_cases) + len(o_sem) + n_oracle,
+        "evaluations": len(l_cases) + len(l_line) + len(o_cases) + len(o_sem) + len(u_cases) + len(u_sem) + len(d_cases) + n_oracle + n_prog,
         "distinct_nontrivial": n_fired,
         "rule": ("L: module-level MiniPy programs (all sequences of <= 3 of 8 assignment/event atoms, one if/while/for "
                  "with small bodies incl. break/continue between prefix and suffix atoms, nested samples, 3 reader modes, "
@@ -1005,9 +1406,12 @@ def check(run, mods, wd, rnd) -> dict:
                  "Non-trivial = the real rule changed the text; distinct by (rule, source)."),
         "samples": samples,
         "modelled_rules": ["fixes.undefine_unused_variables", "object_oriented.remove_unused_self_cls",
-                           "object_oriented.move_staticmethod_static_scope", "fixes.delete_unused_functions_and_classes"],
+                           "object_oriented.move_staticmethod_static_scope", "fixes.delete_unused_functions_and_classes",
+                           "object_oriented.fix_unconventional_class_definitions", "fixes.remove_duplicate_functions"],
         "histogram": dict(hist), "liveness_cases": len(l_cases), "straight_line_cases": len(l_line),
         "object_rule_cases": len(o_cases), "object_semantics_cases": len(o_sem), "oracle_cases": n_oracle,
+        "unconventional_cases": len(u_cases), "unconventional_semantics_cases": len(u_sem), "duplicate_cases": len(d_cases),
+        "witness_and_regression_programs": n_prog,
         "correspondence_disagreements": len(disagreements), "oracle_failures": len(failures) + len(searched),
         "timings_cumulative": timings,
     }
